@@ -12,7 +12,7 @@ import time
 
 import vlib
 
-GEN_CFG = "SPECIFICATION Spec\nCONSTANTS\n  Part = \"{part}\"\n  Deep = {deep}\n"
+GEN_CFG = "SPECIFICATION Spec\nCHECK_DEADLOCK FALSE\nCONSTANTS\n  Part = \"{part}\"\n  Deep = {deep}\n"
 
 CLIENT_ONLY = ("CONNECT", "SUBSCRIBE", "UNSUBSCRIBE", "PINGREQ")
 ENC_DEFAULT = dict(ok=0, err="", grew=0, b=[], len=0, pay_ok=1, pre_ok=1, echo={"t": "none"}, rt={"t": "none"},
@@ -207,6 +207,64 @@ def build_c10(b, deep):
     return stats
 
 
+def conn_runs(deep, seed):
+    """connection-level half of C10: TLC enumerates (size, write pieces, reader pace, chunk limits); each
+    becomes one run of the connection harness"""
+    vecs, r = gen("conn", deep)
+    rnd = random.Random(seed)
+    quota = 6000 if deep else 700
+    if len(vecs) > quota:
+        vecs = sorted(vecs, key=lambda v: hashlib.sha256((json.dumps(v, sort_keys=True) + str(seed)).encode()).hexdigest())[:quota]
+    runs = []
+    for k, v in enumerate(vecs):
+        size, send, piece = v["size"], min(v["send"], v["size"]), v["piece"]
+        cfg = dict(role="server", ver=v["ver"], gate_pub=1 if v["pace"] == "lazy" else 0, gate_proto=0, max_qos=2,
+                   min_chunk=v["minc"], max_payload_buffer=v["buf"])
+        cmds = [dict(c="in", p=dict(t="connect", ka=0))]
+        pub = dict(t="publish", q=v["q"], id=1, topic="t", plen=size, send=send, pat=1)
+        second = dict(t="publish", q=v["q"], id=2, topic="t", plen=min(size, 2000), pat=1)
+        how = "one" if v["pace"] == "abandon" else v["read"]
+        rd = dict(c="complete", j=0, o="ok", read=how)      # opens the gate of the waiting handler
+        if v["pace"] != "lazy":
+            cmds.append(dict(c="arm", o="ok", read=how))    # outcome of the next publish handler
+            if v["pace"] == "abandon":
+                cmds.append(dict(c="arm", o="ok", read=v["read"]))
+        hdr_cuts = sorted(rnd.sample(range(1, 8), rnd.randint(0, 2))) if k % 3 == 0 else []
+        cmds.append(dict(c="in", p=pub, cuts=hdr_cuts))
+        off = send
+        while off < size:
+            n = min(piece, size - off)
+            cmds.append(dict(c="in", p=dict(t="payload", n=n, pat=1, off=off)))
+            off += n
+        if v["pace"] == "lazy":
+            cmds.append(rd)
+        if v["pace"] == "abandon":
+            cmds.append(dict(c="in", p=second))
+        cmds.append(dict(c="in", p=dict(t="pingreq")))
+        cmds.append(dict(c="drain"))
+        runs.append(dict(run=k, cfg=cfg, cmds=cmds, vec=v))
+    return runs, dict(vectors=len(vecs), wall=r["wall"], cached=r["cached"])
+
+
+def run_conn_part(prop, tier, seed):
+    """returns (violations, stats)"""
+    deep = tier == "thorough"
+    runs, gst = conn_runs(deep, seed)
+    tp = vlib.run_harness("conn", [{k: r[k] for k in ("run", "cfg", "cmds")} for r in runs], f"wire_conn_{tier}")[0]
+    verdict = vlib.judge("PayJudge", tp, f"pay_{tier}")
+    if verdict["runs"] != len(runs):
+        raise vlib.ToolError(f"PayJudge saw {verdict['runs']} of {len(runs)} runs")
+    chunks = reads = 0
+    with open(tp) as f:
+        for line in f:
+            if '"h_chunk"' in line:
+                chunks += 1
+            elif '"h_read"' in line:
+                reads += 1
+    viol = [dict(why=x["why"], run=runs[x["run"]]) for x in verdict["viol"]]
+    return viol, dict(runs=len(runs), events=verdict["events"], h_chunk=chunks, h_read=reads, generator=gst)
+
+
 BUILD = dict(C01=build_c01, C02=build_c02, C09=build_c09, C10=build_c10)
 
 
@@ -272,8 +330,18 @@ def run_wire(prop, tier, seed):
         raise vlib.ToolError(f"judge saw {verdict['runs']} of {len(b.vecs)} vectors")
     json.dump([dict(why=x['why'], vector=b.vecs[x['run']]) for x in verdict['viol'][:2000]],
               open(os.path.join(d, f'wire_{prop}_{tier}.viol.json'), 'w'))
+    conn_viol, conn_stats = ([], None)
+    if prop == "C10":
+        conn_viol, conn_stats = run_conn_part(prop, tier, seed)
     known = vlib.load_known()
     new, seen_known, tool = [], {}, []
+    for x in conn_viol:
+        sig = f"{x['why']}|conn|v{x['run']['cfg']['ver']}|{json.dumps(x['run']['vec'], sort_keys=True)}"
+        k = vlib.match_known(known, prop, sig)
+        if k:
+            seen_known[k["signature"]] = k
+        else:
+            new.append(dict(why=x["why"], signature=sig, vector=dict(op="conn", run=x["run"]), owner=prop))
     for x in verdict["viol"]:
         v = b.vecs[x["run"]]
         why = x["why"]
@@ -297,7 +365,7 @@ def run_wire(prop, tier, seed):
                traces_validated_against_impl=verdict["runs"],
                vectors=dict(enc=stats["enc"], dec=stats["dec"], sniff=stats["sniff"]), groups=b.grp,
                real_outcomes=dict(errors=stats["real_err"], encoded_ok=stats["real_ok"], items=stats["items"], panics=stats["panic"]),
-               generator=gstats,
+               generator=gstats, connection_level=conn_stats,
                rule="TLC enumerates the vectors from the reference universe (WireGen over Wire5/Wire3); the harness runs the real "
                     "codec; TLC (WireJudge) recomputes the reference outcome for every vector and decides the recorded one",
                samples=[dict(i=v["i"], op=v["op"], ver=v.get("ver", 0),
@@ -329,6 +397,19 @@ def run_wire(prop, tier, seed):
 
 def replay_wire(prop, r):
     """re-run one recorded vector through the harness and the judge"""
+    if r["vector"].get("op") == "conn":
+        run = r["vector"]["run"]
+        tp = vlib.run_harness("conn", [dict(run=0, cfg=run["cfg"], cmds=run["cmds"])], "wire_conn_replay")[0]
+        for line in open(tp):
+            if '"h_' in line or '"ctl"' in line or '"panic"' in line:
+                print(line.rstrip()[:200])
+        verdict = vlib.judge("PayJudge", tp, "pay_replay")
+        for x in verdict["viol"]:
+            print(f"VIOLATION property={prop} replay={r.get('_path', '')}")
+            print("  reason=" + x["why"])
+            return 1
+        print("replay: run is accepted now")
+        return 0
     v = dict(r["vector"], i=0, grp=0)
     d = os.path.join(vlib.WORK, "runs")
     os.makedirs(d, exist_ok=True)
